@@ -95,6 +95,9 @@ int main(int argc, char** argv) {
       count("steps");
       bool wq = d->warning[mjWARN_BADQPOS].number > (autoreset ? 0 : w0[mjWARN_BADQPOS]);
       bool wv = d->warning[mjWARN_BADQVEL].number > (autoreset ? 0 : w0[mjWARN_BADQVEL]);
+      // a reset clears every counter before it re-adds its own: when the state that the position / velocity reset installs has a bad
+      // acceleration itself (an unstable model), the acceleration check resets once more in the same step and only BADQACC survives
+      if (autoreset && d->warning[mjWARN_BADQACC].number > 0) { if (bad_qpos && !wq) { wq = true; count("position_reset_followed_by_acceleration_reset"); } if (bad_qvel && !wv) { wv = true; count("velocity_reset_followed_by_acceleration_reset"); } }
       if (autoreset) {
         // (a) every state component is finite after the step
         bool fin_qv = mu::all_finite(d->qpos, m->nq) && mu::all_finite(d->qvel, m->nv) && std::isfinite(d->time);
